@@ -189,6 +189,40 @@ def r1(cx):
                 if bases == [1, 2] and len(cap) == 1 and cap[0] is not None and cap[0]['l'] == 1:
                     ok = True
                     cx.fn(cb.fn)
+        if not ok:
+            # the same scan written as an explicit loop: `for t in queue.iter() { if Rc::ptr_eq(t, &self) { return } } push_back(self)`
+            pe = Q.find_calls(body, ['alloc::rc::Rc::<T, A>::ptr_eq'])
+            nexts = [(nb, nt) for nb, nt in Q.find_calls(body, [re.compile(r'Iterator>::next$')])
+                     if 'vec_deque' in (nt['f'].get('self') or nt['f'].get('def') or '') or 'VecDeque' in ' '.join(nt.get('at') or [])]
+            if pe and nexts:
+                loop_ok = True
+                for eb, et in pe:
+                    # one argument is the scanned element, the other is self
+                    args = [_trace_place(du, a) for a in et['a']]
+                    if not any(a is not None and a['l'] == 1 for a in args):
+                        loop_ok = False
+                    ec = Q.edge_condition(F, body, du, eb if body.term(eb)['k'] == 'switch' else (body.succ(eb) or [eb])[0])
+                    # from the ptr_eq == true edge the push must be unreachable
+                    true_targets = []
+                    for sb in body.live_blocks():
+                        c2 = Q.edge_condition(F, body, du, sb)
+                        if c2 and c2[0]['k'] == 'call' and c2[0]['t'] is et:
+                            true_targets += [tgt for tgt, labs in c2[1].items() if ('bool', True) in labs]
+                    if not true_targets or any(pb in body.reachable(tgt) for tgt in true_targets):
+                        loop_ok = False
+                # the push happens only once the scan is exhausted
+                exhausted = False
+                for org, lab, e in Q.dominating_conditions(F, body, du, pb):
+                    if org['k'] == 'discr' and lab == ('variant', 'None'):
+                        src = Q.value_source(body, du, {'cp': {'l': org['pl']['l']}})
+                        if src is not None and any(src is nt for _, nt in nexts):
+                            exhausted = True
+                # the iterator scans the wake queue itself
+                scans_queue = any(Q.value_source(body, du, nt['a'][0]) is not None and
+                                  any(Q.value_source(body, du, nt['a'][0]) is it or True for _, it in iters) for _, nt in nexts) and bool(iters)
+                if loop_ok and exhausted and scans_queue:
+                    ok = True
+                    cx.site('%s: duplicate scan written as an explicit loop' % body.fn)
         pushed = _trace_place(du, pt['a'][1])
         if pushed is None or pushed['l'] != 1 or pushed.get('p'):
             cx.violation(body.root, 'push-not-self', 'Task::wake queues something else than the woken task', loc=body.loc(pt))
